@@ -61,7 +61,7 @@ func c12(c *Ctx) {
 		return
 	}
 	r.Explanation = "Partial: a routing table over all send sites and an identity discipline. (T1) recipients are written only by the six send helpers, and each helper adds exactly what its name says (no extra filter, the one exclusion in sendChannelButOne compares with its user parameter); (T2) every call of a send helper in a handler is classified by the message it sends (command class, prefix class) and by helper + recipient, and must match a row of the routing table; (T3) in client-reachable code a relayed line's prefix is the server prefix, a session's own cached prefix, or a saved copy of it; the incoming message's prefix is never read there; (T4) Nick/Username assignments are followed by updateIrcPrefix, which is the only writer of the cached prefix besides SERVER and snapshot load; (T5) the delivery filters; (T6) +n and +G in PRIVMSG; (T7) send() de-duplicates by message pointer, so no write to a message variable is reachable from a send of it. Whether the recipient set computed by a helper equals true membership at that moment is C14 (pairing) plus history."
-	r.Rules = []string{"C12.T1 helpers add exactly their recipients", "C12.T2 routing table", "C12.T3 real identity", "C12.T4 prefix freshness", "C12.T5 delivery filter", "C12.T6 +n and +G", "C12.T7 a sent message object is not modified and re-sent"}
+	r.Rules = []string{"C12.T1 helpers add exactly their recipients", "C12.T2 routing table", "C12.T3 real identity", "C12.T4 prefix freshness", "C12.T5 delivery filter", "C12.T6 +n and +G", "C12.T7 a sent message object is not modified and re-sent", "C12.T8 a renamed session is told"}
 
 	c.c12Helpers(f)
 
@@ -240,6 +240,7 @@ func c12(c *Ctx) {
 	c.c12Filters(f)
 	c.c12Privmsg(f)
 	c.c12NoReuse(f)
+	c.c12RenameTold(f)
 }
 
 func itoa(n int) string {
@@ -1083,4 +1084,59 @@ func (c *Ctx) isCommonChannelPredicate(fi *load.FuncInfo, f *ircFacts) bool {
 		return true
 	})
 	return okAll && trues > 0 && trues == good
+}
+
+// c12RenameTold (T8): a NICK line that is relayed to the channels a session shares (sendCommonChannels(<session>, …)) is also
+// sent to that session itself (sendUser(<session>, …) on the same message): a session that is on no channel would otherwise
+// never learn that — or to what — it was renamed.
+func (c *Ctx) c12RenameTold(f *ircFacts) {
+	r := c.R
+	n := 0
+	for _, fi := range c.P.FuncsIn("ircserver") {
+		if fi.Body() == nil {
+			continue
+		}
+		info := fi.Info()
+		for _, call := range astx.Calls(fi.Body(), true) {
+			fn := astx.Callee(info, call)
+			if fn == nil || fname(fn) != "sendCommonChannels" || len(call.Args) != 3 {
+				continue
+			}
+			// the message: a literal, or a nested send helper call whose last argument is the literal
+			lit, inner := c.resolveMsgLit(fi, f, call.Args[2])
+			if lit == nil {
+				continue
+			}
+			cmd := litField(lit, "Command")
+			if cmd == nil || !refersTo(info, cmd, pathIRC, "NICK") {
+				continue
+			}
+			n++
+			subject := call.Args[0]
+			told := false
+			// nested: sendCommonChannels(s, reply, sendUser(s, reply, &irc.Message{…}))
+			if inner != nil {
+				if ifn := astx.Callee(info, inner); ifn != nil && fname(ifn) == "sendUser" && len(inner.Args) == 3 && astx.Same(info, inner.Args[0], subject) {
+					told = true
+				}
+			}
+			// or a separate sendUser(subject, …) of the same message variable
+			if !told {
+				if id, ok := ast.Unparen(call.Args[2]).(*ast.Ident); ok {
+					for _, c2 := range astx.Calls(fi.Body(), true) {
+						if f2 := astx.Callee(info, c2); f2 != nil && fname(f2) == "sendUser" && len(c2.Args) == 3 && astx.Same(info, c2.Args[0], subject) {
+							if id2, ok := ast.Unparen(c2.Args[2]).(*ast.Ident); ok && astx.Obj(info, id2) == astx.Obj(info, id) {
+								told = true
+							}
+						}
+					}
+				}
+			}
+			r.Check(told, "C12.T8", fi.Name(), "the NICK line also goes to the renamed session itself", c.P.Pos(call.Pos()), "sendUser(<session>, …) on the same message",
+				"a nickname change is announced to the channels the session shares but not to the session: a session that is on no channel (just connected, or forcibly renamed by services) never learns its new nickname")
+		}
+	}
+	if n < 2 {
+		r.Break("C12.T8: only %d NICK announcements through sendCommonChannels found", n)
+	}
 }
